@@ -252,13 +252,15 @@ def life(name, subject, extra=(), libs=('libavoid',), **kw):
     return Job(name, 'C15_lifecycle.cpp', ['-DSUBJECT=%d' % subject] + list(extra), list(libs), **kw)
 JOBS['C15'] = {
     'quick': [
-        life('router-history-2-processed', 1, ['-DNSTEPS=2', '-DINITIAL=1', '-DFINAL=1', '-DCONCRETE_END'], bounds='orthogonal Router with shape A (2 pins, one in use), connector pin->(150,40) (moves of the shape and of the endpoint are symbolic); initial transaction, then every 2-step history over {processTransaction, add shape, move A, delete A (pin in use), delete connector, add connector, move endpoint}, final transaction, destroy'),
-        life('router-history-2-queued', 1, ['-DNSTEPS=2', '-DINITIAL=2', '-DFINAL=0', '-DCONCRETE_END'], bounds='same menu; the history starts from a processed or an all-queued scene and the router is destroyed with whatever is still queued'),
+        life('router-history-2-processed', 1, ['-DNSTEPS=2', '-DINITIAL=1', '-DFINAL=1', '-DCONCRETE_END', '-DOPMASK=124'], bounds='orthogonal Router with shape A (2 pins, one in use), connector pin->(150,47) (moves of the shape and of the endpoint are symbolic); initial transaction, then every 2-step history over {move A, delete A (pin in use), delete connector, add connector, move endpoint}, final transaction, destroy'),
+        life('router-aligned-move', 1, ['-DNSTEPS=1', '-DINITIAL=1', '-DFINAL=1', '-DCONCRETE_END', '-DENDY=40', '-DOPMASK=4', '-DALLOW_ALIGNED'], bounds='connector from the RIGHT pin (60,40) to the collinear point (150,40); initial transaction, moveShape(A, dx, dy) with symbolic (dx,dy) in [-10,10]^2, transaction'),
+        life('router-history-2-queued', 1, ['-DNSTEPS=2', '-DINITIAL=2', '-DFINAL=0', '-DCONCRETE_END', '-DOPMASK=47'], bounds='menu {processTransaction, add shape, move A, delete A, add connector}; the history starts from a processed or an all-queued scene and the router is destroyed with whatever is still queued'),
         life('incsolver-history-3', 2, ['-DNSTEPS=3'], libs=['libvpsc'], bounds='IncSolver on 3 variables: every 3-step history over {satisfy, solve, addConstraint(symbolic), change desired positions}; then destroy'),
-        life('fdlayout-lifecycle', 3, libs=COLA_LIBS, exclude=('libcola/output_svg.cpp',), bounds='ConstrainedFDLayout on 3 symbolic rectangles: every subset of {setConstraints, setAvoidNodeOverlaps, setUnsatisfiableConstraintInfo, makeFeasible, makeFeasible again}; destroy without run'),
+        life('fdlayout-lifecycle', 3, libs=COLA_LIBS, exclude=('libcola/output_svg.cpp',), bounds='ConstrainedFDLayout on 2 symbolic (overlapping) rectangles: every subset of {setConstraints, setAvoidNodeOverlaps, setUnsatisfiableConstraintInfo, makeFeasible, makeFeasible again}; destroy without run'),
     ],
     'thorough': [
-        life('router-history-3', 1, ['-DNSTEPS=3', '-DINITIAL=1', '-DFINAL=2'], bounds='initial transaction, every 3-step history, optional final transaction', time_limit=3000),
+        life('router-history-2-full', 1, ['-DNSTEPS=2', '-DINITIAL=2', '-DFINAL=2', '-DCONCRETE_END'], bounds='full menu of 7 operations, optional initial and final transaction, every 2-step history', time_limit=3000),
+        life('router-history-3', 1, ['-DNSTEPS=3', '-DINITIAL=1', '-DFINAL=2', '-DCONCRETE_END', '-DOPMASK=124'], bounds='initial transaction, every 3-step history over {move A, delete A, delete connector, add connector, move endpoint}, optional final transaction', time_limit=3000),
         life('router-history-3-immediate', 1, ['-DNSTEPS=3', '-DTRANS=0'], bounds='every 3-step history with transactions switched off'),
     ],
 }
